@@ -21,16 +21,19 @@
 #include <sys/socket.h>
 #include <sys/stat.h>
 #include <sys/un.h>
+#include <sys/syscall.h>
 #include <event2/event.h>
 #include <event2/event_struct.h>
 #include <event2/buffer.h>
 #include <event2/bufferevent.h>
+#include <event2/bufferevent_struct.h>
 #include <event2/listener.h>
 #include <event2/thread.h>
 #include <event2/util.h>
 extern "C" {
 #include "event-internal.h"
 #include "util-internal.h"
+#include "bufferevent-internal.h"
 void __lsan_disable(void);
 void __lsan_enable(void);
 }
@@ -50,7 +53,7 @@ struct FCtx { int slot = -1; int calls = 0, freed = 0, in = 0; };
 struct BevS {
   struct bufferevent *bev = nullptr; int type = 0; /* 0,1 pair ends; 2 socket; 3 filter */ int st = ST_NONE; bool released = false;
   int opts = 0; int fd = -1, peer = -1; ino_t ino = 0; bool cof = false; int under = -1, over = -1;
-  int cbs = 0, in_cb = 0, bufcbs = 0, in_bufcb = 0; bool peer_closed = false; bool closed_seen = false;
+  int cbs = 0, in_cb = 0, bufcbs = 0, in_bufcb = 0; bool peer_closed = false; bool closed_seen = false; bool stacked = false; bool has_bufcb = false;
   FCtx ctx;
 };
 struct BufS { struct evbuffer *b = nullptr; int st = ST_NONE; bool deferred = false; int cbs = 0, in_cb = 0; bool sched = false; /* a deferred run may be scheduled */ bool tolerate = false; };
@@ -65,21 +68,37 @@ struct World {
   int turn_waits = 0; bool turn_capped = false;
   int rel_in_own_cb = 0, rel_in_other_cb = 0, rel_outside = 0, pending_at_free = 0, fin_by_loop = 0, fin_by_base_free = 0, total_cbs = 0;
   int once_never = 0;
-  bool defer_risk = false;   // a bufferevent's deferred callback (it holds a reference) may be scheduled: set by every bufferevent op / incomplete turn, cleared by a complete non-blocking turn
+  bool force = false; bool defer_risk = false;   // a bufferevent's deferred callback (it holds a reference) may be scheduled: set by every bufferevent op / incomplete turn, cleared by a complete non-blocking turn
 };
 World *W;
 const char *K_BUF_AFTER_FREE = "C10/evbuffer-callback-after-free";
 const char *K_DEFER_LEAK = "C10/bev-with-deferred-callback-leaks-at-base-free";
+const char *K_BEVBUF = "C10/bev-evbuffer-callback-after-free";
+const char *K_REARM = "C10/bev-event-added-after-free";
 const char *K_UAF_CANCEL = "asan:heap-use-after-free@event_base_cancel_single_callback_";
 int64_t g_expected_leak = 0;   // library blocks deliberately left behind by event_base_free_nofinalize (documented behaviour)
 bool g_in_case = false;
 char g_sockname[64]; int g_socknamelen;
 
+// fd table via one directory listing (sim_fd_snapshot costs 1024 fcntl calls, more than the rest of the case)
+struct FdTab { uint64_t w[16]; };
+void fd_table(FdTab *t) {
+  memset(t, 0, sizeof *t);
+  int d = open("/proc/self/fd", O_RDONLY | O_DIRECTORY | O_CLOEXEC); if (d < 0) abort();
+  alignas(8) char buf[8192];
+  for (;;) { long n = syscall(SYS_getdents64, d, buf, sizeof buf); if (n <= 0) break;
+    for (long off = 0; off < n;) { struct D64 { uint64_t ino; int64_t o; unsigned short reclen; unsigned char type; char name[1]; } *e = (D64 *)(buf + off);
+      if (e->name[0] >= '0' && e->name[0] <= '9') { int fd = atoi(e->name); if (fd != d && fd < 1024) t->w[fd >> 6] |= 1ull << (fd & 63); }
+      off += e->reclen; } }
+  close(d);
+}
+int fd_table_diff(const FdTab *a, const FdTab *b) { for (int fd = 0; fd < 1024; fd++) if (((a->w[fd >> 6] ^ b->w[fd >> 6]) >> (fd & 63)) & 1) return fd; return -1; }
 void ensure_pipe(int k) { if (W->pipes[k][0] < 0 && pipe2(W->pipes[k], O_NONBLOCK | O_CLOEXEC)) abort(); }
 ino_t ino_of(int fd) { struct stat st; if (fstat(fd, &st)) return 0; return st.st_ino; }
 bool same_open(int fd, ino_t ino) { struct stat st; return fstat(fd, &st) == 0 && st.st_ino == ino; }
 
 void cb_action(int kind, int idx);
+bool fully_released(int i);
 bool release(int kind, int idx, int mode, int ctx_kind, int ctx_idx);
 void activate(int kind, int idx);
 
@@ -189,14 +208,16 @@ void bev_common_cb(struct bufferevent *b, int i, const char *which) {
   v.cbs++; W->total_cbs++;
 }
 void bev_rcb(struct bufferevent *b, void *arg) { int i = (int)(intptr_t)arg; bev_common_cb(b, i, "read"); BevS &v = W->bev[i]; v.in_cb++;
-  char tmp[256]; while (bufferevent_read(b, tmp, sizeof tmp) > 0) {} cb_action(K_BEV, i); v.in_cb--; }
+  char tmp[256]; while (!v.released && bufferevent_read(b, tmp, sizeof tmp) > 0) {} /* (a nested buffer callback may have freed it) */ cb_action(K_BEV, i); v.in_cb--; }
 void bev_wcb(struct bufferevent *b, void *arg) { int i = (int)(intptr_t)arg; bev_common_cb(b, i, "write"); BevS &v = W->bev[i]; v.in_cb++; cb_action(K_BEV, i); v.in_cb--; }
 void bev_ecb(struct bufferevent *b, short what, void *arg) { int i = (int)(intptr_t)arg; bev_common_cb(b, i, "event"); BevS &v = W->bev[i]; v.in_cb++; cb_action(K_BEV, i); v.in_cb--; }
 // user callback on a bufferevent's own input/output evbuffer
 void bevbuf_cb(struct evbuffer *, const struct evbuffer_cb_info *, void *arg) {
   int i = (int)(intptr_t)arg >> 1; BevS &v = W->bev[i];
   TR("  bev%d %s-evbuffer cb (released=%d)", i, ((intptr_t)arg & 1) ? "output" : "input", v.released);
-  CHECK(!v.released, "C10/bev-evbuffer-callback-after-free", "evbuffer callback on the %s buffer of bufferevent %d ran after bufferevent_free returned", ((intptr_t)arg & 1) ? "output" : "input", i);
+  // (a freed underlying that a live filter still drives is still in use on the caller's behalf: no claim)
+  // and while a filter stack is being dismantled the library frees/unlinks the lower layers on its own schedule: no claim either)
+  CHECK(!v.released || v.stacked, K_BEVBUF, "evbuffer callback on the %s buffer of bufferevent %d ran after bufferevent_free returned", ((intptr_t)arg & 1) ? "output" : "input", i);
   CHECK(!W->base_freeing && !W->base_freed, "C10/callback-during-base-free", "evbuffer callback of bufferevent %d ran from event_base_free", i);
   v.bufcbs++; W->total_cbs++; v.in_bufcb++; cb_action(K_BEV, i); v.in_bufcb--;
 }
@@ -225,7 +246,7 @@ int draw_opts(Src &s, bool allow_cof) {
 void bev_setup(int i, Src &s) {
   BevS &v = W->bev[i]; v.st = ST_ALIVE; W->defer_risk = true;
   bufferevent_setcb(v.bev, bev_rcb, s.flag() ? bev_wcb : nullptr, bev_ecb, (void *)(intptr_t)i);
-  if (s.chance(1, 3)) { bool out = s.flag(); evbuffer_add_cb(out ? bufferevent_get_output(v.bev) : bufferevent_get_input(v.bev), bevbuf_cb, (void *)(intptr_t)(i * 2 + (out ? 1 : 0))); TR("  user cb on %s buffer of bev%d", out ? "output" : "input", i); }
+  if (s.chance(1, 3)) { bool out = s.flag(); v.has_bufcb = true; evbuffer_add_cb(out ? bufferevent_get_output(v.bev) : bufferevent_get_input(v.bev), bevbuf_cb, (void *)(intptr_t)(i * 2 + (out ? 1 : 0))); TR("  user cb on %s buffer of bev%d", out ? "output" : "input", i); }
   bufferevent_enable(v.bev, EV_READ | EV_WRITE);
 }
 void do_mk_pair(Src &s) {
@@ -249,13 +270,17 @@ void do_mk_filter(int f, Src &s) {
   int o = draw_opts(s, true); v.type = 3; v.opts = o; v.cof = (o & BEV_OPT_CLOSE_ON_FREE) != 0; v.ctx.slot = f; v.under = u;
   v.bev = bufferevent_filter_new(un.bev, filt, s.flag() ? filt : nullptr, o, filt_free, &v.ctx);
   TR("filter_new bev%d over bev%d opts=0x%x", f, u, o); CHECK(v.bev != nullptr, "C10/ctor-failed", "bufferevent_filter_new NULL");
-  un.over = f; bev_setup(f, s);
+  un.over = f; un.stacked = v.stacked = true; bev_setup(f, s);
 }
 void mark_owner_released(int u) {   // a CLOSE_ON_FREE filter frees its underlying on the caller's behalf
   while (u >= 0) { BevS &x = W->bev[u]; bool was = x.released; x.released = true; if (was || !(x.type == 3 && x.cof)) break; u = x.under; }
 }
 bool release_bev(int i) {
   BevS &v = W->bev[i]; if (v.st != ST_ALIVE || v.released) return false;
+  if (v.over >= 0 && W->bev[v.over].cof) return false;   // owned by a CLOSE_ON_FREE filter: freeing it as well would be a double free by the caller
+  // known finding: a freed bufferevent that a scheduled deferred callback keeps alive still receives data (and runs the user's buffer callbacks)
+  if (!W->force && v.has_bufcb && !v.stacked && W->defer_risk && verif_known(K_BEVBUF)) { verif_known_skipped(K_BEVBUF); return false; }
+  if (!W->force && v.in_bufcb && verif_known(K_REARM)) { verif_known_skipped(K_REARM); return false; }   // known finding: search on behind it
   TR("bufferevent_free(bev%d)", i);
   v.released = true;
   if (v.type == 3 && v.cof) mark_owner_released(v.under);
@@ -265,6 +290,12 @@ bool release_bev(int i) {
 void activate_bev(int i, Src &s) {
   BevS &v = W->bev[i]; if (v.st != ST_ALIVE || v.released) return;
   int how = s.below(7); W->defer_risk = true;
+  struct Post { BevS &v; int i; ~Post() {
+    // the bufferevent was freed by a callback nested in this call and dropped its last reference: finalize_many cancelled
+    // its events; nothing may put them back (the finalizer frees the memory they live in)
+    if (v.released && !W->base_freed && (v.type != 3 || v.ctx.freed == 0) && v.in_cb == 0 && v.in_bufcb == 0 && v.type == 2 && !v.closed_seen && BEV_UPCAST(v.bev)->refcnt == 0)
+      CHECK(!event_pending(&v.bev->ev_write, EV_WRITE | EV_TIMEOUT, nullptr) && !event_pending(&v.bev->ev_read, EV_READ | EV_TIMEOUT, nullptr), K_REARM,
+            "bufferevent %d was freed from its own evbuffer callback during a bufferevent call; after the call returned its read/write event is pending again", i); } } post{v, i};
   if (v.over >= 0 && how != 2 && how != 3) return;    // the caller drives a filtered bufferevent through the filter, not directly
   if (v.in_bufcb && how != 2 && how != 3) return;      // no re-entrant buffer modification from the buffer's own callback
   switch (how) {
@@ -442,11 +473,11 @@ extern "C" int LLVMFuzzerTestOneInput(const uint8_t *data, size_t size) {
   Src s(data, size);
   World w; W = &w; w.s = &s; g_in_case = true;
   int64_t live0 = sim_mem_live_blocks;
-  struct sim_fdset fd0; sim_fd_snapshot(&fd0);
+  FdTab fd0; fd_table(&fd0);
   sim_clock_enable(SIM_START_US); sim_set_wait_hook(wait_hook, nullptr);
   // teardown mode first: 0 = event_base_free; 1 = event_base_free_nofinalize with only event finalizers pending;
   // 2 = event_base_free_nofinalize with anything pending (leaks library memory by design: LeakSanitizer is told so)
-  int tmode = s.below(12); tmode = tmode < 8 ? 0 : tmode < 11 ? 1 : 2;
+  int tmode = s.below(192); tmode = tmode < 128 ? 0 : tmode < 191 ? 1 : 2;
   w.nofin = tmode != 0; w.dirty = tmode == 2;
   if (w.dirty) __lsan_disable();
   struct event_config *cfg = event_config_new();
@@ -488,7 +519,9 @@ extern "C" int LLVMFuzzerTestOneInput(const uint8_t *data, size_t size) {
   for (int k = 0; k < 12; k++) { int j, kind = draw_obj(s, &j);
     if (kind == K_EV && w.ev[j].st == ST_ALIVE && w.ev[j].own && s.flag()) { w.ev[j].left_pending = true; continue; }   // stays registered across event_base_free
     release(kind, j, s.below(2), K_NONE, -1); if (s.chance(1, 6)) turn(EVLOOP_NONBLOCK); }
-  for (int j = NBEV - 1; j >= 0; j--) release(K_BEV, j, 0, K_NONE, -1);
+  for (int j = NBEV - 1; j >= 0; j--) { BevS &v = w.bev[j]; if (v.st != ST_ALIVE || v.released) continue;
+    for (int t = 0; t < 4 && !release(K_BEV, j, 0, K_NONE, -1) && !v.released; t++) turn(EVLOOP_NONBLOCK);   // (a known-finding exclusion may ask for a quiet moment)
+    if (!v.released) { W->force = true; release(K_BEV, j, 0, K_NONE, -1); W->force = false; } }
   for (int j = 0; j < NEV; j++) if (!w.ev[j].left_pending) release(K_EV, j, s.below(2), K_NONE, -1);
   release(K_LEV, 0, 0, K_NONE, -1);
   for (int j = 0; j < NBUF; j++) if (w.buf[j].st == ST_ALIVE && w.buf[j].deferred) {
@@ -543,7 +576,7 @@ extern "C" int LLVMFuzzerTestOneInput(const uint8_t *data, size_t size) {
   if (w.dirty) { if (leaked > 0) { g_expected_leak += leaked; verif_class("nofinalize_left_memory"); } CHECK(leaked >= 0, "C10/ledger-negative", "%lld", (long long)leaked); }
   else if (leaked > 0 && w.defer_risk && bev_pending) { g_expected_leak += leaked; if (!tolerate_leak) VERIF_FAIL(K_DEFER_LEAK, "%lld library allocation(s) outstanding after %s: a bufferevent was freed while its deferred callback was scheduled; the base cancelled that callback and with it the last reference", (long long)leaked, w.nofin ? "event_base_free_nofinalize" : "event_base_free"); }
   else CHECK(leaked == 0, "C10/library-memory-outstanding", "%lld library allocation(s) outstanding after %s (with %d event finalizers pending at that point)", (long long)leaked, w.nofin ? "event_base_free_nofinalize" : "event_base_free", pend_fin);
-  struct sim_fdset fd1; sim_fd_snapshot(&fd1); int d = sim_fd_diff(&fd0, &fd1);
+  FdTab fd1; fd_table(&fd1); int d = fd_table_diff(&fd0, &fd1);
   CHECK(d < 0, "C10/fd-table-differs", "fd %d differs from the pre-case snapshot", d);
   if (w.dirty) __lsan_enable();
 
